@@ -372,6 +372,12 @@ def checkquorum(cx):
                 return True
             return False
         require(cx, c, cx.site_key(c, "insert"), "a peer counts as active only if it is the node itself or its recent_active flag is set", cond, kill=False)
+    # converse: EVERY recently active peer (voter of either half, or learner -- has_quorum looks at ids) and the node itself count
+    gq = cx.pg(qra)
+    insb = {c.block for c in ins}
+    ok1, n1 = gq.after_edge_must_pass(lambda lits: any(l[0] == "is" and l[2] is True and is_f(l[1], "Progress.recent_active") for l in lits), lambda b: b in insb)
+    ok2, n2 = gq.after_edge_must_pass(lambda lits: any(l[0] == "is" and l[2] is True and l[1][0] == "bin" and l[1][1] == "Eq" and any(x[0] == "param" for x in l[1][2:4]) for l in lits), lambda b: b in insb)
+    cx.check(ok1 and n1 >= 1 and ok2 and n2 >= 1, "shape:inserts:all", "every peer whose recent_active flag is set, and the node itself, is put into the active set (no further condition such as 'is an incoming voter')")
 
 
 @obligation("LEASE.activity", ["C16"], floor=2, kind="who-may-write",
